@@ -72,7 +72,7 @@ impl<M: RawMutex + LockName + 'static> EventCore<M> {
         self.slots.regs(&mut regs);
         let event: &'static GenericManualResetEvent<M> = self.owner.get();
         let slots = &self.slots;
-        self.view = inspect_and_check(ctx, Shape::List, regs, &mut |v| event.verif_inspect(v), &mut |r| slots.node_info(r.slot as usize));
+        self.view = inspect_and_check(ctx, Shape::List, regs, &mut |v| event.verif_inspect(v), &mut |r| slots.node_info(r.slot as usize), &|_, i| i.state == 1);
         if let Some(s) = call(ctx, "is_set", 0, 0, || event.is_set()) {
             let m = self.is_set;
             ctx.check("C14", "is_set-reflects-last-set-or-reset", true, s == m, || format!("is_set()={} model={}", s, m));
